@@ -108,7 +108,12 @@ def obligations_C01():
         ok = p is not None and p.list_decay_modes("MOTHERX") == [[w, "zz"]]
         return dict(word=w, in_specified_alphabet=in_spec, parsed_verbatim=ok)
     out.append(lang_eq_ob("lex.LABEL.language", T["LABEL"], LABEL_SPEC, replay_label))
-    sn = _z3_of_terminal(T["SIGNED_NUMBER"])
+    try:
+        sn = _z3_of_terminal(T["SIGNED_NUMBER"])
+    except rx.UnsupportedRegex as u:
+        sn = None
+        out.append(ob("lex.SIGNED_NUMBER.accepts_every_literal_form", "unknown", reason=f"unsupported regex: {u}"))
+        out.append(ob("lex.SIGNED_NUMBER.within_float_domain", "unknown", reason=f"unsupported regex: {u}"))
 
     def replay_num(w):
         p = _parse_ok(f"Decay MOTHERX\n{w} aa PHSP;\nEnddecay\n")
@@ -117,12 +122,16 @@ def obligations_C01():
         except Exception:
             ok = False
         return dict(literal=w, parsed_as_float=ok)
-    out.append(lang_sub_ob("lex.SIGNED_NUMBER.accepts_every_literal_form", NUMBER_FORMS, sn,
-                           "numeric literal form of the property not accepted as SIGNED_NUMBER", replay_num))
-    out.append(lang_sub_ob("lex.SIGNED_NUMBER.within_float_domain", sn, FLOAT_OK,
-                           "SIGNED_NUMBER accepts a string outside the shape float() is assumed to accept"))
-    out.append(lang_sub_ob("lex.INT.within_int_domain", _z3_of_terminal(T["INT"]), r"[0-9]+",
-                           "INT accepts a string int() may refuse"))
+    if sn is not None:
+        out.append(lang_sub_ob("lex.SIGNED_NUMBER.accepts_every_literal_form", NUMBER_FORMS, sn,
+                               "numeric literal form of the property not accepted as SIGNED_NUMBER", replay_num))
+        out.append(lang_sub_ob("lex.SIGNED_NUMBER.within_float_domain", sn, FLOAT_OK,
+                               "SIGNED_NUMBER accepts a string outside the shape float() is assumed to accept"))
+    try:
+        out.append(lang_sub_ob("lex.INT.within_int_domain", _z3_of_terminal(T["INT"]), r"[0-9]+",
+                               "INT accepts a string int() may refuse"))
+    except rx.UnsupportedRegex as u:
+        out.append(ob("lex.INT.within_int_domain", "unknown", reason=f"unsupported regex: {u}"))
     for name, words in (("BOOLEAN_INCLUDE_FACTOR", ("yes", "no")),
                         ("LABEL_CHANGE_MASS", ("ChangeMassMin", "ChangeMassMax")),
                         ("LABEL_INCLUDE_FACTOR", ("IncludeBirthFactor", "IncludeDecayFactor")),
